@@ -1931,6 +1931,16 @@ class t2data(object):
             if gen.type in convert: gen.type = convert[gen.type]
             elif not ((gen.type in allowed) or gen.type.startswith('COM')):
                 delgens.append((gen.block, gen.name))
+        # delete from the generator list and dictionary separately, in
+        # case there are multiple generators with the same dictionary key:
+        deleted = set(delgens)
+        self.generatorlist = [gen for gen in self.generatorlist
+                              if (gen.block, gen.name) not in deleted or
+                              gen.type in allowed or gen.type.startswith('COM')]
+        for key in deleted:
+            if key in self.generator: del self.generator[key]
+        for gen in self.generatorlist:
+            self.generator[(gen.block, gen.name)] = gen
         if warn and len(delgens) > 0:
             print('The following generators have types not supported' + \
                   ' by TOUGH2 and have been deleted:')
